@@ -78,12 +78,16 @@ type Engine struct {
 	NarrowCtx map[string]*NarrowRec
 	// AssumeAfterCheck: after an index operation the index is assumed in range (a failed check panics).
 	AssumeAfterCheck bool
+	// LoadGVN: integer loads through the same unresolved field address with no store/call in between are equal.
+	LoadGVN bool
 	// ErrDiscipline: generate E-ERR obligations (no callee error is dropped on a success return).
 	ErrDiscipline bool
 	// Defer: ghost atoms holding the pre-conversion value of narrowing instructions (assigned at every execution).
 	Defer map[string]Atom // key: NarrowRec.Key
 	// RootInit is applied to the entry state of the root.
 	RootInit func(st *State)
+	// DynCallHook is called for calls of function values; returning true means the hook has applied the call's effect itself.
+	DynCallHook func(e *Engine, st *State, in *ssa.Call) bool
 	// ConvertHook is called (checking mode) before an integer conversion is evaluated.
 	ConvertHook func(e *Engine, st *State, x *ssa.Convert)
 	// BinOpHook is called (checking mode) before an integer binary operation is evaluated.
@@ -680,5 +684,27 @@ func (e *Engine) AllocFieldExpr(st *State, a *ssa.Alloc, idx int) Lin {
 		return Lin{Bad: true}
 	}
 	key := fmt.Sprintf("%s.f%d", e.allocObj(a), idx)
+	return st.Subst(Var(e.cellInt(key, stt.Field(idx).Type())))
+}
+
+// HavocAllMemory / FreshCallResult: building blocks for DynCallHook clients.
+func (e *Engine) HavocAllMemory(st *State)                { e.havocAllMemory(st) }
+func (e *Engine) FreshCallResult(st *State, c *ssa.Call) { e.freshCallResult(st, c) }
+
+// PtrFieldExpr: current integer value of field idx of the struct the pointer value p points to.
+func (e *Engine) PtrFieldExpr(st *State, p ssa.Value, idx int) Lin {
+	ad, ok := e.addrOf(st, p)
+	if !ok {
+		return Lin{Bad: true}
+	}
+	pt, ok := p.Type().Underlying().(*types.Pointer)
+	if !ok {
+		return Lin{Bad: true}
+	}
+	stt, ok := pt.Elem().Underlying().(*types.Struct)
+	if !ok || idx >= stt.NumFields() || !isInt(stt.Field(idx).Type()) {
+		return Lin{Bad: true}
+	}
+	key := fmt.Sprintf("%s%s.f%d", ad.Obj, ad.Path, idx)
 	return st.Subst(Var(e.cellInt(key, stt.Field(idx).Type())))
 }
